@@ -399,6 +399,28 @@ def x8(ctx, tab, sites, pp):
     return r
 
 
+def _tuple_components(ty):
+    """components of the first (outermost) tuple type in a type string without blanks"""
+    a = ty.find('(')
+    if a < 0:
+        return []
+    depth, cur, out = 0, '', []
+    for ch in ty[a + 1:]:
+        if ch in '(<[':
+            depth += 1
+        elif ch in ')>]':
+            if depth == 0:
+                out.append(cur)
+                return [c for c in out if c]
+            depth -= 1
+        if ch == ',' and depth == 0:
+            out.append(cur)
+            cur = ''
+        else:
+            cur += ch
+    return []
+
+
 def x10_x12_p2(ctx, tab, sites, pp):
     r10 = RuleResult('X10', 'results of nested runs are adopted (defines, text) and include errors are wrapped')
     r11 = RuleResult('X11', 'no file is opened under ignore_include')
@@ -456,7 +478,28 @@ def x10_x12_p2(ctx, tab, sites, pp):
                 r10.inst('resolver-result:%s:%d' % (arm.key if arm else '-', n_res), {'arm': arm.key if arm else '-', 'binds': ids, 'then': body[:3]})
                 if src.get('k') != 'try':
                     r10.fail('%s:%s:resolver-error-dropped' % (PP, arm.key if arm else '-'), pp.where(n.get('l')), 'errors of the macro resolver must be propagated with `?`')
-                if len(ids) == 3:
+                # which component of the returned tuple is the define table?  (from the callee's return type)
+                rets = (tab[inner['f']['p']][2]['sig'].get('rets') or '').replace(' ', '')
+                comps = _tuple_components(rets)
+                tpos = [j for j, c in enumerate(comps) if c.startswith('Defines')]
+                all_ids = sx.pat_idents(n['c']['pat'])
+                emitted = any(b.startswith('%s.push(' % pp.out_var) or b.startswith('%s.merge(' % pp.out_var) for b in body) or \
+                    any(n2.get('k') == 'mcall' and n2['m'] in ('push', 'merge') and sx.is_path(n2['recv'], pp.out_var) for n2 in sx.walk(n['t']))
+                if len(tpos) == 1 and len(all_ids) == len(comps):
+                    tv = all_ids[tpos[0]]
+                    if tv is None:
+                        if emitted:
+                            r10.fail('%s:%s:expansion-defines-not-adopted' % (PP, arm.key if arm else '-'), pp.where(n.get('l')),
+                                     'the define table returned by the expansion is matched by `_` although the expanded text is emitted: a `define / `undef that becomes '
+                                     'active through the expansion does not reach the enclosing table, so later `ifdef / `ifndef / `elsif test a stale table')
+                    elif '%s=%s;' % (table_var(pp), tv) not in body:
+                        if emitted:
+                            r10.fail('%s:%s:expansion-defines-not-adopted' % (PP, arm.key if arm else '-'), pp.where(n.get('l')),
+                                     'the define table returned by the expansion (`%s`) is not adopted' % tv)
+                        else:
+                            r10.undecided('%s:%s:expansion-defines' % (PP, arm.key if arm else '-'), pp.where(n.get('l')),
+                                          'the define table returned by the expansion (`%s`) is bound but neither adopted nor is the text emitted' % tv)
+                elif len(ids) == 3:
                     if '%s=%s;' % (table_var(pp), ids[2]) not in body:
                         r10.fail('%s:%s:expansion-defines-not-adopted' % (PP, arm.key if arm else '-'), pp.where(n.get('l')),
                                  'the define table returned by the expansion (`%s`) is not adopted' % ids[2])
